@@ -13,30 +13,127 @@ NOTES = ('Technique family: contract-based deductive verification of the real C 
 NOT_BUILT = 'check not built yet in this round (planned in DESIGN.md §4); not claimed until its obligations run'
 
 PROPS = {}
+# properties whose checks are built and registered in MANIFEST.json
+CLAIMED = ['C05', 'C06', 'C14', 'C15']
 
 
 def prop(pid, **kw):
     PROPS[pid] = kw
 
 
-for _p in ['C01', 'C02', 'C03', 'C04', 'C05', 'C06', 'C07', 'C08', 'C09', 'C10', 'C11', 'C12',
-           'C15', 'C16', 'C17', 'C18', 'C19', 'C20', 'C21', 'C22']:
-    prop(_p, not_applicable=NOT_BUILT)
-
 prop('C13', not_applicable='the observable is resident set size of a running process; no function contract can express '
      'RSS (allocator, thread stacks, page residency) and a contract-level surrogate would decide a different '
      'statement (DESIGN.md §6)')
 
+PCHAIN = 'Trusted: CBMC 6.11 + SAT/SMT back ends, goto-cc C semantics (LP64 little-endian), the weaver strip-check, assumed libc/POSIX contracts listed in the evidence. '
+
+prop('C01', level='model_checking',
+     text='Round-trip is cut at the stage boundaries: each codec stage pair (RLE1 collect/emit, MTF/zero-run, table build/decode) is checked on '
+          'the real functions at small bounded sizes (labelled bounded) and the block-ordering glue between stages is proved with contracts.',
+     note=PCHAIN + 'Whole-pipeline inverse for unbounded input is not one contract; blocks beyond the bounds, divbwt and transmit/retrieve bit agreement are undecided.',
+     technique='CBMC contracts on the ordering glue + bounded CBMC checks of real codec stage functions', design_ref='§4 C01')
+prop('C02', level='proof',
+     text='Stream framing (header digit, trailer bytes, combined CRC recurrence, block order) is proved on write_header/write_trailer/do_reorder/combine_crc; '
+          'per-block field facts (dummy table Kraft sum for every alphabet size, padding, selector bound) as lemmas; capacity via bounded collect steps.',
+     note=PCHAIN + 'libbz2 is not linked into the verifier; per-block table completeness for multi-table blocks only bounded.',
+     technique='CBMC function contracts + exhaustive lemma harnesses on the real encoder code', design_ref='§4 C02')
+prop('C03', level='proof',
+     text='Determinism is decomposed into scheduler-free contracts: xread always fills a chunk, xwrite writes every byte in order, chunk n gets position (n,0), '
+          'work blocks are chained by next, do_reorder only emits the block whose position equals order.',
+     note=PCHAIN + 'Sequential determinism of encode()/transmit() given no uninitialised reads is assumed; single reader/writer thread assumed from init_io.',
+     technique='CBMC function + loop contracts with POSIX stubs returning every allowed outcome; monitor-invariant harnesses', design_ref='§4 C03')
+prop('C04', level='model_checking',
+     text='One-step conformance of the real collect() against the greedy packing rule written from the property, from every representable (capacity, fill, run-state) '
+          'for small capacities with symbolic input bytes (bounded); encode() final flush and the chunking glue are proved.',
+     note=PCHAIN + 'collect() is a goto-built state machine that admits no loop contracts; composition of steps beyond the bound is a paper induction.',
+     technique='bounded CBMC checks of real collect() from enumerated start states + contracts on the glue', design_ref='§4 C04')
+prop('C05', level='proof',
+     text='parse() is proved against a reference stream automaton (unbounded input); do_parse/do_reorder error routing, size and CRC checks are proved; the code-length '
+          'delta tables are checked against strict step-by-step decoding as an exhaustive lemma; make_tree Kraft check by complete unwinding; entropy decoding bounded.',
+     note=PCHAIN + 'retrieve()/emit() byte-exactness beyond the bounds is undecided.',
+     technique='CBMC function/loop contracts with ghost reference automaton + exhaustive table lemmas', design_ref='§4 C05')
+prop('C06', level='proof',
+     text='Accepting direction of the parse() contract (every legal header/trailer sequence at any bit offset), make_tree on every complete length vector, '
+          'mtf_one fast path on every layout, selectors clamp; remaining decoding stages bounded.',
+     note=PCHAIN + 'mtf_one general path, decode(), emit(), retrieve() only bounded.',
+     technique='CBMC contracts + complete-unwind harnesses + bounded stage checks', design_ref='§4 C06')
+prop('C07', level='proof',
+     text='Proves the path from every detected error to the process outcome: every error status reaches a fail* reporter, reporters never return, bailout on the '
+          'main thread cleans up before _exit(1), other threads promote and signal; detection itself is C05, memory safety C08.',
+     note=PCHAIN + 'never hangs is liveness and is not decided; stdio/pthread/signal calls are assumed contracts.',
+     technique='CBMC contracts with _Noreturn reporter stubs recording ghost state', design_ref='§4 C07')
+prop('C08', level='proof',
+     text='Every harness runs with bounds, pointer, overflow, shift and division checks on, so the functions under contract are free of UB under their stated '
+          'preconditions; bounded functions are listed as bounded.',
+     note=PCHAIN + 'not a whole-program claim: divbwt at real block sizes, retrieve fast path on full streams and cross-thread lifetime are undecided.',
+     technique='CBMC built-in safety checks on all contract harnesses', design_ref='§4 C08')
+prop('C09', level='proof',
+     text='bits_init/attach/detach position arithmetic proved (absolute bit position preserved, pos injective), multi-buffer emission ordering proved, '
+          'set_memory_constraints proved; emit() split invariance bounded.',
+     note=PCHAIN + 'retrieve() NEED suspend/resume relational property is undecided (coroutine structure).',
+     technique='CBMC contracts on expand.c glue + bounded emit split check', design_ref='§4 C09')
+prop('C10', level='proof',
+     text='Safety statement proved on do_parse/do_reorder/do_scan/do_retrieve: a buffer reaches the sink only if its base equals a position at which the sequential '
+          'parser accepted a header, in parser order; everything else is discarded.',
+     note=PCHAIN + 'sequential determinism of retrieve from equal bit positions assumed.',
+     technique='CBMC monitor-invariant contracts on expand.c task bodies', design_ref='§4 C10')
+prop('C11', level='proof',
+     text='Safety half: monitor invariants (unit/slot conservation, queue occupancy below capacity, order) proved per task body and callback for every '
+          'interleaving via havoc-at-lock; heap/deque primitives proved. Termination/deadlock-freedom NOT decided.',
+     note=PCHAIN + 'liveness is outside contract-based verification; stated undecided.',
+     technique='Owicki-Gries style monitor invariants as CBMC contracts on the real task bodies', design_ref='§4 C11')
+prop('C12', level='proof',
+     text='Lock discipline for file-scope shared scheduler state: every access in the task bodies happens with the ghost lock flag held (accessor instrumentation '
+          'woven after the declarations).',
+     note=PCHAIN + 'heap objects handed between threads are argued from queue ownership, not checked access by access.',
+     technique='woven accessor macros + CBMC assertions on ghost lock state', design_ref='§4 C12')
 prop('C14', level='proof',
      text='Lemma harnesses prove for every bit history that mini_dfa implements the longest-border (KMP) automaton of the '
           'literal pattern 0x314159265359 and that big_dfa is its 8-step composition with absorbing ACCEPT (all 49x256 '
           'entries); the scan() routine itself is checked against a naive matcher on a bounded window (labelled bounded).',
-     note='Trusted: CBMC/SAT back end; the induction over bit histories that lifts the step lemma to all streams is a '
+     note=PCHAIN + 'the induction over bit histories that lifts the step lemma to all streams is a '
           'paper argument; scan() word loop only bounded (its loop shares a cycle with goto again, CBMC loop contracts cannot attach).',
      technique='CBMC lemma harnesses over scantab.h (exhaustive, loop-free after constant unwinding) + bounded check of scan()',
      design_ref='§4 C14',
      undecided=['scan() beyond the stated window bound'],
      assumptions=['induction principle over bit histories (paper step)'])
+prop('C15', level='proof',
+     text='parse() contract: hd->crc is bit-for-bit the stored field and the stream check compares the stored trailer with the combination; custody of the header '
+          'through order_q and the comparison in do_reorder are proved.',
+     note=PCHAIN + 'emit() computing the CRC of the emitted bytes is bounded.',
+     technique='CBMC contracts (parse reference automaton, do_reorder monitor harness)', design_ref='§4 C15')
+prop('C16', level='proof',
+     text='Ghost file-system state: opathn != NULL iff a partial output exists; input removed only after output closed complete; bailout/halt/cleanup ordering; '
+          'every syscall stub returns every POSIX outcome so each call position is a fault point.',
+     note=PCHAIN + 'signal delivery assumed atomic w.r.t. ghost state; operand loop unrolled for 2 operands.',
+     technique='CBMC contracts over main.c/signals.c with POSIX stubs and ghost file-system state', design_ref='§4 C16')
+prop('C17', level='proof',
+     text='input_init admission rules, suffix_xform rules (bounded name length), output_init O_EXCL/mode, output_regf_uninit metadata order, removal rule, exit status.',
+     note=PCHAIN + 'string lengths bounded; POSIX O_EXCL semantics assumed.',
+     technique='CBMC contracts over main.c with POSIX stubs', design_ref='§4 C17')
+prop('C18', level='proof',
+     text='Per-run reset: primary_thread prologue + init() give canonical scheduler state from any terminal state; terminal predicate follows from invariant; main loop frame.',
+     note=PCHAIN, technique='CBMC contracts on init()/primary_thread/main loop', design_ref='§4 C18')
+prop('C19', level='proof',
+     text='work() sniffing: non-header input with -cdf to stdout writes exactly the bytes read then copies; header input goes to expansion; copy pipeline forwards each '
+          'buffer once in order.',
+     note=PCHAIN + 'termination of the copy is liveness, undecided.',
+     technique='CBMC contracts on work()/copy callbacks/xread/xwrite', design_ref='§4 C19')
+prop('C20', level='model_checking',
+     text='assign_codes/package_merge on the real code for small alphabets with symbolic frequencies compared with an enumerated optimum (bounded); single-table dummy '
+          'code complete for all alphabet sizes (lemma).',
+     note=PCHAIN + 'the 20-bit limit cannot bind at the bound; make_code_lengths not covered.',
+     technique='bounded CBMC check of real package_merge/assign_codes against enumeration', design_ref='§4 C20')
+prop('C21', level='proof',
+     text='xread/xwrite: a -1 from read/write at any call position reaches failfx and never returns normally; reporter suppresses message only for EPIPE/EFBIG; '
+          'bailout/promote signal ordering; main close(stdout) failure fatal.',
+     note=PCHAIN + 'promptness/never hangs is liveness, undecided.',
+     technique='CBMC loop contracts with POSIX stubs', design_ref='§4 C21')
+prop('C22', level='model_checking',
+     text='opts_setup against an executable model of the documented rules for bounded token lists (symbolic choice among documented spellings); helper contracts proved.',
+     note=PCHAIN + 'token lists longer than the bound undecided; strtok/getenv/strcmp loop stubs trusted.',
+     technique='bounded CBMC check of real opts_setup against documented-rule model', design_ref='§4 C22')
+
 
 
 def all_obligations():
@@ -55,4 +152,34 @@ def all_obligations():
          what='big_dfa[s][c] equals eight mini_dfa steps, ACCEPT absorbing, all 49x256 entries',
          functions=['big_dfa (table)'], flags=['--unwind', '10', '--unwinding-assertions'],
          expect=['big_dfa entry equals'], replayable=True, replay_src='scantab.h'))
+
+    # ---------------- parse.c
+    A(Ob(name='parse.contract', props=['C05', 'C06', 'C15', 'C07', 'C10'], kind='proof', harness='h_parse.c', entry='h_parse',
+         what='parse() returns exactly the verdict of the reference stream automaton on the 16-bit units it consumes; '
+              'hd->crc / hd->bs100k are the stored fields; unbounded input length (loop contract)',
+         functions=['parse'], enforce='parse', loop_contracts=True, flags=['--unwind', '20'],
+         expect=[r'parse\.postcondition', r'loop_invariant_base', r'loop_invariant_step', r'parse: the unit is the first 16 bits',
+                 r'parse: after a stream trailer', r'parse: 16 bits are buffered'],
+         assumed=['ntohl() = big-endian load (CBMC library model)'], twin='parse.twin.'))
+    for live, words, tier in [(0, 4, 'quick'), (16, 3, 'quick'), (5, 4, 'thorough'), (63, 3, 'thorough'), (37, 4, 'thorough')]:
+        A(Ob(name=f'parse.twin.L{live}W{words}', props=['C05', 'C06', 'C15'], kind='bounded', harness='h_parse.c', entry='h_parse_twin',
+             what='explicit twin: up to 3 parse() calls over buffered bits + symbolic words at eof agree with the reference run over the raw bits',
+             bound=f'{live} buffered bits + {words} input words, <= 3 calls, eof set', functions=['parse', 'parser_init'],
+             defines={'TWIN_LIVE': str(live), 'TWIN_WORDS': str(words)}, tier=tier,
+             flags=['--unwind', '20', '--unwinding-assertions'], expect=['twin: block reported'], replayable=True, timeout=900))
+    A(Ob(name='parse.parser_init', props=['C05', 'C06', 'C15'], kind='proof', harness='h_parse.c', entry='h_parser_init',
+         what='parser_init() state is coupled to a fresh reference automaton', functions=['parser_init'],
+         expect=['parser_init: implementation state coupled'], replayable=True))
+    A(Ob(name='parse.bits_lemma', props=['C05', 'C06', 'C15', 'C14'], kind='lemma', harness='h_parse.c', entry='h_bits_lemma',
+         what='bits_need/bits_peek/bits_dump implement a big-endian bit queue for every buffer state and n in 1..32',
+         functions=['bits_need (macro)', 'bits_peek (macro)', 'bits_dump (macro)'],
+         expect=['bits_need: the word is appended big-endian', 'bits_dump: removes exactly'], replayable=True))
+
+    # ---------------- decode.c
+    A(Ob(name='decode.delta_step', props=['C05', 'C06'], kind='lemma', harness='h_decode.c', entry='h_delta_step',
+         what='every 6-bit delta window of the real retrieve() (L[]/R[] tables + range test), from every reachable length value, '
+              'is accepted iff strict step-by-step bzip2 1.0.x decoding accepts it, with the same resulting length/consumed bits',
+         functions=['retrieve (code-length delta section)', 'L[] R[] (tables)'], flags=['--unwind', '8', '--unwinding-assertions'],
+         expect=['delta window accepted by the table-driven decoder stays within', 'delta window rejected by the table-driven'],
+         canaries=['CANARY delta accept path reached'], replayable=True))
     return obs
